@@ -396,7 +396,7 @@ class Render:
     """Braced rendering.  Types are pinned (E@T) only where the context does not already determine them: the unchanged
     tree mis-handles some pinned sub-expressions in nested conditional contexts (DESIGN 6a), and conditions of `if`
     statements are first stored in a Boolean variable for the same reason."""
-    def __init__(self, g, drop_val=False, box_plus=False, extra_top=()): self.g = g; self.nb = 0; self.drop_val = drop_val; self.box_plus = box_plus; self.extra_top = list(extra_top)
+    def __init__(self, g, drop_val=False, box_plus=False, extra_top=(), marker=None): self.g = g; self.nb = 0; self.drop_val = drop_val; self.box_plus = box_plus; self.extra_top = list(extra_top); self.marker = marker
 
     def anchored(self, x):
         k = x[0]
@@ -529,7 +529,7 @@ class Render:
     def lit(self, v): return self.e(('lit', MI, v), True)
 
     def text(self):
-        g = self.g; o = [HEADER]
+        g = self.g; o = [HEADER if not self.marker else HEADER.replace('stdout << x', 'stdout << "%s" << x' % self.marker)]
         o.append('zqrest(l: List MI): List MI == if empty? l then l else rest l;')
         o.append('zqap(f: MI -> MI, x: MI): MI == f f x;')
         o.append('zqnop(): () == {};')
